@@ -318,6 +318,10 @@ def mutate(rng, L, root, kind=None):
     elif kind in ('stray', 'stray_dir', 'fifo'):
         d = rng.choice(L.dirs)
         name = rng.choice(['stray', 'a b2', 'new\\file', '.stray', 'Manifest', 'Manifest.gz', 'Manifest.old']) if kind != 'stray_dir' else 'newdir'
+        if kind == 'fifo' and name.startswith('Manifest'):
+            # a FIFO with a Manifest name makes gemato's Manifest discovery block in open() for ever
+            # (observation recorded in DESIGN 19; not a case any listed property speaks about)
+            name = 'pipe'
         dp = os.path.join(root, d)
         if not os.path.isdir(dp):
             return None
